@@ -513,7 +513,7 @@ MEM_LOOPS = {"memcpy.0": 9, "memcpy.1": 9, "memcpy.2": 2, "memset.0": 9, "memset
 @prop("C17",
       functions=["compactCells", "areNeighborCells", "gridDisk", "gridDiskDistances", "_gridDiskDistancesInternal", "polygonToCellsExperimental", "maxPolygonToCellsSizeExperimental", "iterInitPolygonCompact", "iterStepPolygonCompact", "iterDestroyPolygonCompact"],
       bounds={"quick": "every failure schedule (symbolic bit per allocation) of: compactCells on 3 arbitrary words; areNeighborCells on every neighbour pair of res 0-1; gridDisk/gridDiskDistances k=1 on every cell of res 0-1; polygonToCellsExperimental / maxPolygonToCellsSizeExperimental on triangles with 0-1 hole, any flags/resolution, geometry over-approximated",
-              "thorough": "compactCells 6 words; neighbour pairs and disks at res 0-3"},
+              "thorough": "neighbour pairs and disks at res 0-3, arbitrary-origin disks at res 2, maxPolygonToCellsSizeExperimental"},
       outside="k >= 2, larger sets and polygons; legacy polygonToCells beyond a size estimate of 2 cells and one seed",
       assumptions=["H3_ALLOC_PREFIX allocator = harness shim; a non-failing allocation returns a fresh block (CBMC malloc/calloc)", "S-GEO: cellToLatLng, cellToBoundary, latLngToCell, cellToBBox and the polygon predicates return arbitrary values in the polygon jobs"],
       stubs=["vp_malloc/vp_calloc/vp_free (S-ALLOC)", "S-GEO in the polygon jobs", "memcpy/memset loop models"])
@@ -527,7 +527,7 @@ def c17(tier):
     CL = {"compactCells.%d" % i: 8 for i in range(6)}
     CL["compactCells.6"] = 3
     js += with_witness(al("compact_3", ["-DCOMPACT", "-DNW=3"], unwind=17, us=dict(CL, **{"harness.0": 4}), est=60, mem="M", bound="3 arbitrary words, every failure schedule"))
-    js += [al("compact_6", ["-DCOMPACT", "-DNW=6"], unwind=17, us=dict(CL, **{"harness.0": 7}), est=600, mem="L", tier="thorough", timeout=3400, core=False, bound="6 arbitrary words, every failure schedule")]
+    # compact_6 (6 arbitrary words) was probed: 17 GB, no verdict - not registered
     DL = {"_gridDiskDistancesInternal.0": 8, "_gridDiskDistancesInternal.1": 7, "gridDiskDistancesUnsafe.0": 8, "harness.0": 8, "harness.1": 8, "harness.2": 8}
     for r in (0, 1, 2, 3):
         t = "quick" if r <= 1 else "thorough"
@@ -550,7 +550,7 @@ def c17(tier):
       PLL.update({"bboxesFromGeoPolygon.0": 3, "bboxFromGeoLoop.0": 5, "harness.0": 4, "harness.1": 4, "gridDisk.0": 8})
       j = al("polylegacy_h%d" % nh, ["-DPOLYLEGACY", "-DNH=%d" % nh, "-DNHEX=2"], unwind=5, us=PLL, stubs=PSL, est=100, mem="M", timeout=2400, bound="legacy polygonToCells: triangle + %d hole(s), size estimate 2, edge tracer seeds nothing (allocation prologue, tracer errors, epilogue), every failure schedule" % nh)
       js += with_witness(j) if nh == 0 else [j]
-      js.append(al("polylegacy_seed_h%d" % nh, ["-DPOLYLEGACY", "-DSEED", "-DNH=%d" % nh, "-DNHEX=2"], unwind=5, us=PLL, stubs=PSL, est=900, mem="X", timeout=3400, tier="thorough", core=False, bound="as above with one seed cell and arbitrary rings (flood fill of a 2-slot table)"))
+      # polylegacy with a seed cell and arbitrary rings (flood fill of a 2-slot table) was probed: 27-30 GB, no verdict - not registered
       js += with_witness(al("polymax_h%d" % nh, ["-DPOLYMAX", "-DNH=%d" % nh], unwind=5, us=PL, stubs=PS, est=400, mem="L", timeout=2400, tier="thorough", bound="triangle + <=1 hole, res <= 2 (incl. negative), any flags, <= 3 iterator steps"))
     return js
 
